@@ -470,7 +470,7 @@ def run_routes(d, rng, malformed=False, backends=("core", "einsum")):
     obs, unstable, histories = [], [], []
     base0 = views_of(d, malformed)
     for be in backends:
-        base = base0   # (np.einsum broadcasts size-1 core modes / sums open boundary ranks: modelled, see tucker_to_tensor_einsum_b / ein_chain)
+        base = base0   # (before repo 8b25fc6 np.einsum broadcast size-1 core modes / summed open boundary ranks)
         tenalg.set_backend(be)
         try:
             for kind in ("tuple", "wrapper"):
@@ -904,10 +904,10 @@ def well_formed_py(d):
 # __setitem__ stores an array of another shape (CPTensor.to_tensor then folds with the stale shape) - kept as a known finding (the
 # repair would reject the intermediate state of a legitimate two-step replacement); (2) 1-D CP factors were accepted by the
 # validator but no un-masked reconstruction worked - repaired in /repo by 148e558.
-# Round 5: the reconstruction FUNCTIONS of Tucker / TT / TR / TT-matrix do not validate their input (cp_to_tensor and the PARAFAC2
-# functions do).  Most invalid sets still fail inside (a dot / reshape error), but (a) under the einsum tenalg backend np.einsum
-# broadcasts size-1 dimensions and sums open boundary ranks, (b) tt_to_tensor's reshape / dot chain goes through when the rank products
-# happen to fit.  Classified known finding (model: tucker_to_tensor_einsum_b, ein_chain, tt_to_tensor; theorems C03_*_refuted).
+# Round 5 findings, repaired in /repo (8b25fc6, b8d05d5): the reconstruction functions of Tucker / TT / TR / TT-matrix reconstructed some
+# factor sets their validators reject (np.einsum's broadcasting / summed boundary ranks; rank products that happen to fit), and
+# cp_to_unfolded with a negative mode multiplied with the Khatri-Rao product of ALL factors.  The predicates stay (any such output is a
+# VIOLATION now); the witnesses live on in corpus/C03/ and as C03_before_* Examples.
 SILENT_EP = {"tucker": "tensorly.tucker_tensor.tucker_to_tensor", "tt": "tensorly.tt_tensor.tt_to_tensor", "tr": "tensorly.tr_tensor.tr_to_tensor",
              "ttm": "tensorly.tt_matrix.tt_matrix_to_tensor"}
 
@@ -927,21 +927,11 @@ def silent_ok(d):
     return False
 
 
-def clf_unvalidated(f):
-    return f["inputs"].get("silent") is True and f["inputs"].get("input_kind") == "tuple"
-
-
-def clf_cp_negative_mode(f):
-    # cp_to_unfolded(cp, -k) for order >= 2 (the order-1 branch handles -1 correctly)
-    return f["inputs"].get("negative_mode") is True and f["inputs"].get("kind") == "cp" and f["inputs"].get("order", 0) >= 2
-
-
 def clf_setitem_stale(f):
     return f["inputs"].get("setitem") == "reshaping" and f["inputs"].get("input_kind") == "wrapper"
 
 
-CLASSIFIERS = {"wrapper_setitem_stale_cache": clf_setitem_stale, "unvalidated_reconstruction": clf_unvalidated,
-               "cp_unfolded_negative_mode": clf_cp_negative_mode}
+CLASSIFIERS = {"wrapper_setitem_stale_cache": clf_setitem_stale}
 
 
 def describe(d):
@@ -1234,12 +1224,12 @@ def run(chk):
     chk.cov["exhaustive"] = False
     chk.cov["skipped_timeouts"] = SKIPPED["timeouts"]
     chk.cov["rule"] = ("one case = one decomposition (CP / Tucker / TT / TR / TT-matrix / PARAFAC2; integer entries in [-3,3]) observed through every view "
-                       "(validate|.shape/.rank, to_tensor [masked], to_unfolded for every mode + one invalid mode (CP of the enumerated boxes also the negative modes -1, -order and the invalid -(order+1): order >= 2 is the classified known finding cp_to_unfolded_negative_mode), to_vec, cp_norm / wrapper .norm(), to_matrix, slice(s)) under both tenalg backends "
+                       "(validate|.shape/.rank, to_tensor [masked], to_unfolded for every mode + one invalid mode (CP of the enumerated boxes also the negative modes -1, -order and the invalid -(order+1)), to_vec, cp_norm / wrapper .norm(), to_matrix, slice(s)) under both tenalg backends "
                        "(the einsum TT-matrix route against its own model), "
                        "as tuple (one CViews case) and as wrapper-object HISTORY per backend (CObj cases run through the object model: construction, shuffled multi-step views with repeats, a shape-preserving __setitem__ phase after which the views must follow the new contents, and a shape-changing one = the classified known-finding class); plus mixed-dtype variants (int64 indicator / float32 / float64, half-integer floats, one complex array); CP: all shapes of order 1-3 over {1,2,3} (+ sampled order 4; thorough: all) x rank {1,2,3} x "
                        "weights {None, ones, signed non-unit} + masked; Tucker/TT/TR: all shapes of order 1-2 + sampled order 3-4 with random ranks in {1,2,3} incl. rank > dim, skip_factor, transpose_factors; "
                        "TT-matrix with 1-3 cores; PARAFAC2 with uneven slices; plus a malformed stream (mismatched ranks, wrong boundary ranks, open rings, wrong ndim, non-orthonormal and dyadic sub-orthonormal projections (validator through the model at Q), wrong counts, 1-D factors, a non-square PARAFAC2 B that must be rejected late, "
-                       "operands np.einsum can broadcast: size-1 core modes / one-column factors / inner rank r against 1 / open boundary ranks, a TT with first boundary rank r0 and fitting rank products) observed through EVERY view under BOTH backends: Ok-with-the-same-value / Err exactly as the model says, and any reconstruction returned for a set the validator rejects is a finding (classified known finding: unvalidated_reconstruction); "
+                       "operands np.einsum can broadcast: size-1 core modes / one-column factors / inner rank r against 1 / open boundary ranks, a TT with first boundary rank r0 and fitting rank products) observed through EVERY view under BOTH backends: Ok-with-the-same-value / Err exactly as the model says, and any reconstruction returned for a set the validator rejects is a finding; "
                        "evaluations = implementation calls; a case is non-trivial if some factor has more than one entry; distinct key = (family, factor shapes, weights kind, options, malformation)")
     for b in broken:
         chk.broken.append({"what": "correspondence corr:C03 shard not evaluated", "detail": b})
@@ -1250,7 +1240,7 @@ def run(chk):
                        "the to_tensor routes are modelled for 2-D (and, rank 1, 1-D) CP factors, 2-D Tucker factors, 3-D TT/TR cores, 4-D TT-matrix cores; other ndims only through the validators",
                        "mixed-dtype / complex / half-integer factor sets are compared by VALUE after exact conversion (the model has no dtype); a complex array is split into two integer cases by linearity",
                        "NumPy reshape/moveaxis/transpose behave as modelled in Base/Tensor.v (validated by C01's primitive cases)"]
-    chk.trusted += ["einsum backend: the einsum routes of CP (khatri_rao), Tucker (multi_mode_dot) and the TT-matrix are modelled separately (value of the single np.einsum call) and proved equal to the core routes on well-formed input; TT / TR / PARAFAC2 run the same code under both backends; on malformed operands the Tucker and TT-matrix einsum routes are compared against models with np.einsum's broadcasting / summed-boundary semantics (tucker_to_tensor_einsum_b, ein_chain); the einsum khatri_rao of CP is reached only after _validate_cp_tensor and is compared on accepted sets only",
+    chk.trusted += ["einsum backend: the einsum routes of CP (khatri_rao), Tucker (multi_mode_dot) and the TT-matrix are modelled separately (value of the single np.einsum call) and proved equal to the core routes on well-formed input; TT / TR / PARAFAC2 run the same code under both backends; on malformed operands the Tucker and TT-matrix einsum routes are compared against their models as well (tucker_to_tensor_einsum_b: exact contracted dimensions; ttm_to_tensor_einsum: the validator's conditions first); the einsum khatri_rao of CP is reached only after _validate_cp_tensor and is compared on accepted sets only",
                     "PARAFAC2 orthonormality threshold 1e-5 is modelled exactly (P^T P = I) which coincides on integer-valued projections"]
     _orig_load = C.load_known
 
